@@ -342,6 +342,14 @@ fn duplicate_key_texts() -> Vec<(String, Value)> {
         ("{\"\\u0061\":1,\"a\":2}".into(), json!({"a": 2})),
         ("{\"b\":1,\"a\":2,\"b\":3,\"a\":4}".into(), json!({"a": 4, "b": 3})),
         (" { \"a\" : 1 , \"a\" : [ 1 , 2 ] } ".into(), json!({"a": [1, 2]})),
+        // the later value differs from the earlier one only in spelling / in the last digit
+        ("{\"a\":1,\"a\":1.0}".into(), json!({"a": 1.0})),
+        ("{\"a\":1.0,\"a\":1}".into(), json!({"a": 1})),
+        ("{\"k\":9007199254740992,\"k\":9007199254740993}".into(), json!({"k": 9007199254740993u64})),
+        ("{\"k\":0.71,\"k\":0.7100000000000002}".into(), json!({"k": 0.7100000000000002})),
+        ("{\"k\":[1],\"k\":[1.0]}".into(), json!({"k": [1.0]})),
+        ("{\"k\":{\"x\":18446744073709551615},\"k\":{\"x\":18446744073709551614}}".into(), json!({"k": {"x": 18446744073709551614u64}})),
+        ("[{\"a\":0,\"a\":-0.0}]".into(), json!([{"a": -0.0}])),
     ]
 }
 
@@ -451,6 +459,13 @@ pub fn run(tier: Tier) -> i32 {
         st.transitions += 1;
         check_document_text(&t, &w, &mut st);
     }
+    // neighbours that differ only in the spelling or the last digit of a number (as scalars and inside
+    // containers), and member names that look like numbers / keywords
+    for d in crate::enumr::neighbour_docs() {
+        st.states += 1;
+        st.transitions += 1;
+        check_document_text(&serde_json::to_string(&d).unwrap(), &d, &mut st);
+    }
     let ladder = size_ladder(tier);
     st.count("size_ladder_documents", ladder.len() as u64);
     let sl = par_sweep(ladder.chunks(8).map(|c| c.to_vec()).collect(), |chunk: &Vec<(String, Value)>, st| {
@@ -469,7 +484,7 @@ pub fn run(tier: Tier) -> i32 {
     let model_err: u64 = st.counters.iter().filter(|(k, _)| k.starts_with("MODEL_ERROR")).map(|(_, v)| *v).sum();
     rep.guard("reference spellings decode to the intended strings", model_err == 0);
     rep.guard("integers, exact-class floats and loose-class floats all occur", ["integer", "exact-class float", "loose-class float"].iter().all(|k| st.outcomes.get(*k).cloned().unwrap_or(0) > 50));
-    rep.rule = "every numeral of the enumerated families (small integers, +-2^p and neighbours for p<=64, range limits, decimals with <= 4 significant digits x exponents, 15/17-digit representatives), every string up to the bound over {a \" \\ / e-acute emoji U+0001 U+2028} in three spellings (bare, in an array, as key and value), malformed texts, D(2,2) documents compact and pretty, duplicate keys; each through from_json -> search('@') -> print -> re-parse and through every Value conversion. non-trivial = value accepted and compared Size ladder: objects of 2..257 (thorough ..4099) members in 8 (16) fixed key orders with one repeated key at 6 position pairs (last wins) and without, arrays / strings / equal-looking big integers of 31..65537 (131073) elements.".into();
+    rep.rule = "every numeral of the enumerated families (small integers, +-2^p and neighbours for p<=64, range limits, decimals with <= 4 significant digits x exponents, 15/17-digit representatives), every string up to the bound over {a \" \\ / e-acute emoji U+0001 U+2028} in three spellings (bare, in an array, as key and value), malformed texts, D(2,2) documents compact and pretty, duplicate keys; each through from_json -> search('@') -> print -> re-parse and through every Value conversion. non-trivial = value accepted and compared Size ladder: objects of 2..257 (thorough ..4099) members in 8 (16) fixed key orders with one repeated key at 6 position pairs (last wins) and without, arrays / strings / equal-looking big integers of 31..65537 (131073) elements. Neighbour documents: adjacent scalars / containers that differ only in the spelling or last digit of a number, duplicate keys whose values differ that way, member names that look like numbers, keywords or serde_json's private tokens.".into();
     rep.bounds = json!({"string_len": k, "numerals": nums.len(), "documents": docs.len()});
     rep.assumptions = vec![
         "serde_json::from_str::<Value> and Rust's str::parse::<f64> are the independent readings of a JSON text (trusted base)".into(),
